@@ -257,7 +257,26 @@ func crossProcess(t *testing.T, name string, cases []Case, renders []string) {
 func multiDefect(t *rapid.T, p *model.Project) {
 	n := rapid.IntRange(0, 3).Draw(t, "defects")
 	for i := 0; i < n; i++ {
-		switch rapid.IntRange(0, 4).Draw(t, "defect") {
+		switch rapid.IntRange(0, 7).Draw(t, "defect") {
+		case 5: // two types with the same text whose only defect sits in an unnamed (rule-set) type: same offsets, different files
+			p.Types = append(p.Types,
+				model.Type{Name: fmt.Sprintf("@ua%d", i), Node: model.Scalar("string", `"x"`, model.R("or", model.List(model.Set(model.R("type", model.Str("@unum")), model.R("nullable", model.Bool(true))), model.Set(model.R("type", model.Str("string"))))))},
+				model.Type{Name: fmt.Sprintf("@uc%d", i), Node: model.Scalar("string", `"x"`, model.R("or", model.List(model.Set(model.R("type", model.Str("@unum")), model.R("nullable", model.Bool(true))), model.Set(model.R("type", model.Str("string"))))))})
+			if p.Type("@unum") == nil {
+				p.Types = append(p.Types, model.Type{Name: "@unum", Node: model.Scalar("integer", "123")})
+			}
+		case 6: // two types whose allOf fails for different reasons
+			p.Types = append(p.Types,
+				model.Type{Name: fmt.Sprintf("@allofmissing%d", i), Node: model.Obj(model.R("allOf", model.Str("@nowhere"))).Add("k", model.Scalar("integer", "1"))},
+				model.Type{Name: fmt.Sprintf("@allofscalar%d", i), Node: model.Obj(model.R("allOf", model.Str("@scalar"))).Add("k", model.Scalar("integer", "1"))})
+			if p.Type("@scalar") == nil {
+				p.Types = append(p.Types, model.Type{Name: "@scalar", Node: model.Scalar("integer", "5")})
+			}
+		case 7: // duplicate key through inheritance next to a cycle
+			p.Types = append(p.Types,
+				model.Type{Name: fmt.Sprintf("@dupa%d", i), Node: model.Obj(model.R("allOf", model.Str(fmt.Sprintf("@dupb%d", i)))).Add("same", model.Scalar("integer", "1"))},
+				model.Type{Name: fmt.Sprintf("@dupb%d", i), Node: model.Obj().Add("same", model.Scalar("integer", "2"))},
+				model.Type{Name: fmt.Sprintf("@cyc%d", i), Node: model.Obj(model.R("allOf", model.Str(fmt.Sprintf("@cyc%d", i))))})
 		case 0: // another broken type
 			name := fmt.Sprintf("@bad%d", i)
 			p.Types = append(p.Types, model.Type{Name: name, Node: model.Scalar("integer", "1", model.R("min", model.Num("2")))})
